@@ -8,6 +8,7 @@ import (
 	"github.com/RoaringBitmap/roaring/v2"
 	"verifmc/internal/ev"
 	"verifmc/internal/explore"
+	"verifmc/internal/extract"
 	"verifmc/internal/shapes"
 )
 
@@ -85,6 +86,24 @@ func runC09(c *Ctx) {
 	s3 := strict32(bfs32(fmt.Sprintf("S3keys/n%d/s%d", 17, 3), s3Ops(17, 3), 2))
 	scs = append(scs, s3)
 	scs = append(scs, c09Algebra(c)...)
+	mspecs, mbuild, mops := marginalFamily(q)
+	scs = append(scs, &explore.Product{Name: "validity of operations on pairs of marginal run chunks", Dims: []int{len(mspecs), len(mspecs), len(mops)}, Deadline: c.Budget(100, 1400),
+		Run: func(idx []int) (string, *ev.Fail) {
+			a, _ := mbuild(mspecs[idx[0]])
+			b, _ := mbuild(mspecs[idx[1]])
+			op := mops[idx[2]]
+			r := op.F(a, b)
+			if f := checkValid32(op.Name, r); f != nil {
+				return "", f
+			}
+			if f := checkValid32(op.Name+" (argument)", b); f != nil {
+				return "", f
+			}
+			return op.Name + extract.Kinds(roaring.VerifViewOf(r)), nil
+		},
+		Describe: func(idx []int) any {
+			return map[string]any{"a": fmt.Sprintf("%+v", mspecs[idx[0]]), "b": fmt.Sprintf("%+v", mspecs[idx[1]]), "op": mops[idx[2]].Name}
+		}})
 	pbv := pairBFS("V:copy-on-write pair closure", q, 2, true)
 	pbv.Deadline = c.Budget(118, 1700)
 	scs = append(scs, pbv)
